@@ -5,6 +5,7 @@ use duckscript::types::env::Env;
 use duckscript::types::instruction::{Instruction, InstructionType};
 use duckscript::types::runtime::StateValue;
 use std::collections::HashMap;
+use std::sync::atomic::Ordering;
 
 #[cfg(test)]
 #[path = "./eval_test.rs"]
@@ -136,6 +137,12 @@ pub(crate) fn eval_instructions(
     let mut flow_output = None;
     let mut flow_result = None;
     loop {
+        // functions called as conditions and script based commands run their lines here and not in the runner's
+        // main loop: a halt request ends this flow as well
+        if env.halt.load(Ordering::SeqCst) {
+            break;
+        }
+
         let instruction = if instructions.len() > line {
             instructions[line].clone()
         } else {
